@@ -287,7 +287,7 @@ def run_case(acc, A, handler, kind, spec, accept, pkey, carrier, neutral_cache):
     """kind: 'class' (raise/return an HTTPException), 'boom' (uncaught), 'notfound' (path)."""
     handler, _, method = handler.partition('#')
     method = method or 'GET'
-    app = A.app[handler]
+    app = A.app.get(handler)
     payload = PAYLOADS.get(pkey, '')
     hdrs = {'Accept': accept} if accept is not None else {}
     if handler == 'gzip':
@@ -303,6 +303,11 @@ def run_case(acc, A, handler, kind, spec, accept, pkey, carrier, neutral_cache):
                 kw['code'] = 418
             elif field == 'code499':
                 kw['code'] = 499          # not in any table of registered status codes
+            elif field is not None and field.startswith('mt:'):
+                # the documented mimetype= option; an unrecognised type falls back to text/plain, header and body together
+                if field != 'mt:none':
+                    kw['mimetype'] = field[3:]
+                kw['detail'] = pl
             elif field is not None and field.startswith('ct:'):
                 # the documented content_type= option, together with a hostile detail
                 kw['content_type'] = field[3:]
@@ -310,6 +315,10 @@ def run_case(acc, A, handler, kind, spec, accept, pkey, carrier, neutral_cache):
             elif field is not None:
                 kw[field] = pl
             A.spec = (cname, kw, how)
+            if handler == 'direct':
+                # the error object is itself a WSGI application (a response): served as it was constructed
+                e = (A.extra_classes.get(cname) or getattr(A.errors, cname))(**kw)
+                return wsgi.call(e, '/err', method, headers=hdrs), kw
             return wsgi.call(app, '/err', method, headers=hdrs), kw
         if kind == 'boom':
             A.message = pl if carrier == 'excmsg' else 'msg'
@@ -343,6 +352,10 @@ def run_case(acc, A, handler, kind, spec, accept, pkey, carrier, neutral_cache):
     if res.raised is not None:
         bad('raised-%s' % type(res.raised).__name__, 'application raised %r' % (res.raised,))
         return
+    cl = res.header('Content-Length') if res.headers else None
+    if cl is not None and method != 'HEAD' and (not cl.strip().isdigit() or int(cl) != len(res.body or b'')):
+        bad('content-length', 'Content-Length says %r, the body has %d bytes' % (cl, len(res.body or b'')))
+        return
     # what the client sees is the body with the declared content coding undone and the declared charset applied
     problem = client_view(res)
     if problem and method != 'HEAD':
@@ -353,6 +366,8 @@ def run_case(acc, A, handler, kind, spec, accept, pkey, carrier, neutral_cache):
         want = 418 if spec[1] == 'code' else (499 if spec[1] == 'code499' else cls.code)
         fields = {'code': want, 'message': kw.get('message', cls.message), 'detail': kw.get('detail', None),
                   'error_type': kw.get('error_type', None)}
+        if handler == 'direct':
+            fields['message'] = None
         if 'detail' not in kw:
             fields['detail'] = None      # class default detail (MethodNotAllowed appends) - presence only
     elif kind == 'boom':
@@ -364,7 +379,18 @@ def run_case(acc, A, handler, kind, spec, accept, pkey, carrier, neutral_cache):
     if res.code != want:
         bad('status-%s' % res.code, 'status %s, expected %s' % (res.status, want))
         return
-    fmt = check_negotiation(bad, res, accept)
+    if handler == 'direct':
+        fmt = fmt_of(res)
+        exp = dict((m, f) for f, m in CT.items()).get(spec[1][3:], 'text')
+        if fmt != exp:
+            bad('direct-format', 'constructed with mimetype=%r: served as %r, expected %s'
+                % (spec[1][3:], res.header('Content-Type'), CT[exp]))
+            return
+        if fmt == 'text' and (not (res.body or b'')[:1].isdigit() or b'<html' in (res.body or b'').lower()):
+            bad('direct-text-body', 'text/plain fallback body does not look like the plain rendering')
+            return
+    else:
+        fmt = check_negotiation(bad, res, accept)
     acc.outcome('%s|%s|%s|%s|%s' % (kind, spec[1] if kind == 'class' else carrier, pkey, handler, fmt))
     if method == 'HEAD':
         # same status and negotiated representation as the GET; there is no body to look at
@@ -390,7 +416,7 @@ def run_case(acc, A, handler, kind, spec, accept, pkey, carrier, neutral_cache):
                                                  'ServiceUnavailable', 'GatewayTimeout', 'HTTPVersionNotSupported')
                   and spec[1] != 'error_type')
     check_body(acc, bad, res, fmt, fields, neutral_body, pkey, payload,
-               carrier if kind != 'class' else ('detail' if str(spec[1]).startswith('ct:') else spec[1]), strict_fields=True)
+               carrier if kind != 'class' else ('detail' if str(spec[1])[:3] in ('ct:', 'mt:') else spec[1]), strict_fields=True)
 
 
 def items(tier):
@@ -442,6 +468,11 @@ def items(tier):
             out.append(('norebind', 'class', (cname, None, how), None))
             for pkey in ('tag', 'plain', 'script'):
                 out.append(('norebind', 'class', (cname, 'detail', how), pkey))
+    for cname in ('Forbidden', 'NotFound', 'BadRequest', 'InternalServerError'):
+        for mt in ('none', 'application/pdf', 'application/xhtml+xml', 'text/xml', 'TEXT/HTML', '', 'text/html',
+                   'application/json', 'application/xml', 'text/plain'):
+            for pkey in ('tag', 'plain'):
+                out.append(('direct', 'class', (cname, 'mt:' + mt, 'raise'), pkey))
     # a few classes under the debug handler as well
     for cname in ('Forbidden', 'NotFound', 'InternalServerError'):
         for field in ('detail', 'error_type'):
@@ -452,6 +483,8 @@ def items(tier):
 
 def accepts_for(item, tier):
     handler, kind, spec, p = item
+    if handler == 'direct':
+        return [None]
     if kind == 'class':
         cname = spec[0]
         return ACCEPTS
